@@ -588,6 +588,9 @@ class SymReal:
     __str__ = __repr__
 
     def __format__(s, spec):
+        if spec:
+            # a format specification may lose digits: the rendering is an opaque LOSSY token that does not evaluate back to the value
+            return f"LOSSY({render_number(s.t)!r}, {spec!r})"
         return render_number(s.t)
 
 
